@@ -344,7 +344,10 @@ def enum_repo_scan(seed):
             entries = []  # (name, arch, vulnerable ranges, unaffected ranges)
             for i in range(rnd.choice((1, 2, 3))):
                 nodes = []
-                for name in rnd.sample(names, rnd.choice((1, 2))):
+                picked = rnd.sample(names, rnd.choice((1, 2)))
+                if round_ % 2:          # an advisory may carry several entries for one package (per arch, per slot)
+                    picked = [picked[0]] + picked
+                for name in picked:
                     e = (name, rnd.choice(("*", "x86 amd64", "ppc")), [rng() for _ in range(rnd.choice((1, 2)))], [rng() for _ in range(rnd.choice((0, 0, 1)))])
                     entries.append(e)
                     body = "".join(f'<vulnerable range="{o}"' + (f' slot="{s}"' if s else "") + f">{b}</vulnerable>" for o, b, s in e[2]) + \
@@ -388,7 +391,7 @@ def enum_repo_scan(seed):
                     fails.append({"model": dict(model, package=p.cpvstr), "detail": f"SecurityUpgrades over {model['advisories']}: {p.cpvstr} is {'offered' if g_ else 'not offered'} as an upgrade; "
                                                                                     f"it is {'affected' if affected(p) else 'not affected'} and its name is {'among' if p.key in vul_keys else 'not among'} the vulnerable ones"})
     return {"name": "C45.repository_scan.bounded_enumeration",
-            "bound": f"{400 if thorough else 120} seeded advisory directories (1..3 files x 1..2 package entries x 1..2 vulnerable and 0..1 unaffected ranges over the nine operators, slots, three arch specs) "
+            "bound": f"{400 if thorough else 120} seeded advisory directories (1..3 files x 1..3 package entries, every other directory with two entries of one package in one advisory, x 1..2 vulnerable and 0..1 unaffected ranges over the nine operators, slots, three arch specs) "
                      "scanned against a 10-package repository: find_vulnerable_repo_pkgs plain and grouped, SecurityUpgrades.__iter__", "cases": cases, "failures": fails}
 
 
